@@ -426,6 +426,8 @@ func parent(id, tier string) int {
 		totalInc += n
 	}
 
+	anchorCov := anchorCoverage(id, filepath.Join(runDir, "cov"))
+
 	// evidence
 	cov := map[string]any{
 		"evaluations":         merged.Evaluations,
@@ -440,6 +442,9 @@ func parent(id, tier string) int {
 	}
 	if len(merged.Notes) > 0 {
 		cov["notes"] = merged.Notes
+	}
+	if anchorCov != nil {
+		cov["anchor_file_statement_coverage_percent"] = anchorCov
 	}
 	if cov["samples"] == nil {
 		cov["samples"] = []any{}
@@ -482,6 +487,8 @@ func runChild(self, raceBin, id, tier string, seed int64, s ChildSpec, shard int
 	bin := self
 	if s.Race {
 		bin = raceBin
+	} else if cb := os.Getenv("VERIF_COVER_BIN"); cb != "" {
+		bin = cb
 	}
 	args := []string{"child", id, tier, "--mode", s.Mode, "--shard", strconv.Itoa(shard), "--nshards", strconv.Itoa(s.Shards),
 		"--out", dir, "--seed", strconv.FormatInt(seed, 10)}
@@ -494,6 +501,11 @@ func runChild(self, raceBin, id, tier string, seed int64, s ChildSpec, shard int
 	cmd.Stderr = outF
 	cmd.Env = append(os.Environ(), s.Env...)
 	cmd.Env = append(cmd.Env, "GOTRACEBACK=all")
+	if !s.Race && os.Getenv("VERIF_COVER_BIN") != "" {
+		covDir := filepath.Join(runDir, "cov")
+		_ = os.MkdirAll(covDir, 0o755)
+		cmd.Env = append(cmd.Env, "GOCOVERDIR="+covDir)
+	}
 	if s.Race {
 		cmd.Env = append(cmd.Env, fmt.Sprintf("GORACE=halt_on_error=0 exitcode=0 history_size=3 log_path=%s", filepath.Join(dir, fmt.Sprintf("race-%d", shard))))
 	}
@@ -711,4 +723,97 @@ func parseRaceLogs(dir string, shard int, output string) []raceReport {
 func init() {
 	// children of timing-sensitive checks should not be disturbed by GC of huge heaps
 	debug.SetGCPercent(100)
+}
+
+// anchorCoverage converts the coverage counters that the children of a -cover build wrote into per-file statement
+// coverage of the property's anchored repository files (nil when the run was not a coverage run).
+func anchorCoverage(id, covDir string) map[string]float64 {
+	if os.Getenv("VERIF_COVER_BIN") == "" {
+		return nil
+	}
+	ents, err := os.ReadDir(covDir)
+	if err != nil || len(ents) == 0 {
+		return nil
+	}
+	prof := filepath.Join(covDir, "profile.txt")
+	cmd := exec.Command("go", "tool", "covdata", "textfmt", "-i="+covDir, "-o="+prof)
+	if out, err := cmd.CombinedOutput(); err != nil {
+		fmt.Printf("note: covdata failed: %v %s\n", err, string(out))
+		return nil
+	}
+	// anchors of this property
+	anchors := map[string]bool{}
+	if f, err := os.Open(filepath.Join(root(), "properties.jsonl")); err == nil {
+		sc := bufio.NewScanner(f)
+		sc.Buffer(make([]byte, 1<<20), 1<<20)
+		for sc.Scan() {
+			var p struct {
+				ID      string `json:"id"`
+				Anchors struct {
+					Files []string `json:"files"`
+				} `json:"anchors"`
+			}
+			if json.Unmarshal(sc.Bytes(), &p) == nil && p.ID == id {
+				for _, fn := range p.Anchors.Files {
+					anchors[fn] = true
+				}
+			}
+		}
+		f.Close()
+	}
+	type cnt struct{ total, covered int }
+	per := map[string]*cnt{}
+	seen := map[string]int{} // block -> max count
+	stm := map[string]int{}
+	if f, err := os.Open(prof); err == nil {
+		sc := bufio.NewScanner(f)
+		sc.Buffer(make([]byte, 1<<20), 1<<20)
+		for sc.Scan() {
+			line := sc.Text()
+			if strings.HasPrefix(line, "mode:") {
+				continue
+			}
+			// github.com/mholt/caddy-l4/layer4/routes.go:12.3,14.5 2 1
+			k := strings.LastIndex(line, ":")
+			if k < 0 {
+				continue
+			}
+			file := strings.TrimPrefix(line[:k], repoPrefix)
+			var blk string
+			var n, c int
+			if _, err := fmt.Sscanf(line[k+1:], "%s %d %d", &blk, &n, &c); err != nil {
+				continue
+			}
+			key := file + "|" + blk
+			stm[key] = n
+			if c > seen[key] {
+				seen[key] = c
+			} else if _, ok := seen[key]; !ok {
+				seen[key] = c
+			}
+		}
+		f.Close()
+	}
+	for key, n := range stm {
+		file := key[:strings.Index(key, "|")]
+		if !anchors[file] {
+			continue
+		}
+		p := per[file]
+		if p == nil {
+			p = &cnt{}
+			per[file] = p
+		}
+		p.total += n
+		if seen[key] > 0 {
+			p.covered += n
+		}
+	}
+	out := map[string]float64{}
+	for file, p := range per {
+		if p.total > 0 {
+			out[file] = float64(int(1000*float64(p.covered)/float64(p.total))) / 10
+		}
+	}
+	return out
 }
